@@ -526,6 +526,13 @@ func importTar(in io.ReaderAt) (*tarFile, error) {
 }
 
 func moveRec(name string, in *tarFile, out *tarFile, picked map[string]struct{}) error {
+	return moveRecLinks(name, in, out, picked, make(map[string]struct{}))
+}
+
+// moveRecLinks is moveRec that remembers the hardlinks it is following (links)
+// so that hardlinks pointing to each other are reported instead of being
+// followed forever.
+func moveRecLinks(name string, in *tarFile, out *tarFile, picked map[string]struct{}, links map[string]struct{}) error {
 	name = cleanEntryName(name)
 	if name == "" { // root directory. stop recursion.
 		if e, ok := in.get(name); ok {
@@ -547,13 +554,18 @@ func moveRec(name string, in *tarFile, out *tarFile, picked map[string]struct{})
 	}
 
 	parent, _ := path.Split(strings.TrimSuffix(name, "/"))
-	if err := moveRec(parent, in, out, picked); err != nil {
+	if err := moveRecLinks(parent, in, out, picked, links); err != nil {
 		return err
 	}
 	if e, ok := in.get(name); ok && e.header.Typeflag == tar.TypeLink {
-		if err := moveRec(e.header.Linkname, in, out, picked); err != nil {
+		if _, following := links[name]; following {
+			return fmt.Errorf("file: %q: hardlinks point to each other", name)
+		}
+		links[name] = struct{}{}
+		if err := moveRecLinks(e.header.Linkname, in, out, picked, links); err != nil {
 			return err
 		}
+		delete(links, name)
 	}
 	if _, done := picked[name]; done {
 		return nil
